@@ -103,14 +103,17 @@ def queries(w, signed):
     le = 'bvsle' if signed else 'bvule'
     lt = 'bvslt' if signed else 'bvult'
     q = {}
-    q['Q_total'] = ('no panic for any non-negative target and any measure',
-                    '(assert %s) (assert (= (f T M) (_ bv3 2)))' % ge0)
+    # "for every configured target value the computation succeeds": EVERY value of the type,
+    # negative day targets included (thresholds are only meaningful for targets >= 0, so the
+    # threshold queries below keep that restriction; totality and monotonicity do not)
+    q['Q_total'] = ('no panic for any target (negative ones included) and any measure',
+                    '(assert (= (f T M) (_ bv3 2)))')
     q['Q_spec'] = ('result = high iff measure >= 1.5*target (either rounding of the half, saturated at the type maximum or not), low iff target <= measure < that, none otherwise',
                    '(assert %s) (assert (not (= (f T M) (_ bv3 2)))) (assert (and (distinct (f T M) (S T M (Hf T))) (distinct (f T M) (S T M (Hc T))) (distinct (f T M) (S T M (sat (Hf T)))) (distinct (f T M) (S T M (sat (Hc T))))))' % ge0)
     q['Q_order'] = ('the high threshold is never below the low one: high or low implies measure >= target',
                     '(assert %s) (assert (or (= (f T M) (_ bv2 2)) (= (f T M) (_ bv1 2)))) (assert (%s M T))' % (ge0, lt))
-    q['Q_mono'] = ('urgency never decreases as the measure grows',
-                   '(assert %s) (assert (%s M M2)) (assert (not (= (f T M) (_ bv3 2)))) (assert (not (= (f T M2) (_ bv3 2)))) (assert (bvugt (f T M) (f T M2)))' % (ge0, le))
+    q['Q_mono'] = ('urgency never decreases as the measure grows (any target)',
+                   '(assert (%s M M2)) (assert (not (= (f T M) (_ bv3 2)))) (assert (not (= (f T M2) (_ bv3 2)))) (assert (bvugt (f T M) (f T M2)))' % (le,))
     q['Q_reach_high'] = ('vacuity witness: some input yields high', '(assert %s) (assert (= (f T M) (_ bv2 2)))' % ge0)
     q['Q_reach_low'] = ('vacuity witness: some input yields low', '(assert %s) (assert (= (f T M) (_ bv1 2)))' % ge0)
     q['Q_reach_none'] = ('vacuity witness: some input yields none', '(assert %s) (assert (= (f T M) (_ bv0 2)))' % ge0)
